@@ -248,6 +248,79 @@ func (e *Engine) checkC14() []*Obligation {
 				obls = append(obls, ob)
 			}
 		}
+		// 0b. secondary inputs are digested raw: a file opened by the command (guest, host, query,
+		// feature table) may only be consumed through attach(h, f), which feeds every byte read
+		// into the hash; parsing it directly and hashing some projection of the parsed value
+		// leaves the rest of what was parsed (features, qualifiers) out of the key.
+		{
+			opened := map[types.Object]token.Pos{}
+			ast.Inspect(fd.Body, func(n ast.Node) bool {
+				if as, ok := n.(*ast.AssignStmt); ok && len(as.Rhs) == 1 {
+					if call, ok := as.Rhs[0].(*ast.CallExpr); ok {
+						if se, ok := call.Fun.(*ast.SelectorExpr); ok {
+							if id, ok := se.X.(*ast.Ident); ok && id.Name == "os" && se.Sel.Name == "Open" && len(as.Lhs) >= 1 {
+								if lid, ok := as.Lhs[0].(*ast.Ident); ok {
+									if o := info.ObjectOf(lid); o != nil {
+										opened[o] = as.Pos()
+									}
+								}
+							}
+						}
+					}
+				}
+				return true
+			})
+			var fobjs []types.Object
+			for o := range opened {
+				fobjs = append(fobjs, o)
+			}
+			sort.Slice(fobjs, func(i, j int) bool { return fobjs[i].Pos() < fobjs[j].Pos() })
+			for _, fo := range fobjs {
+				bad := ""
+				okUse := map[*ast.Ident]bool{}
+				ast.Inspect(fd.Body, func(n ast.Node) bool {
+					switch x := n.(type) {
+					case *ast.CallExpr:
+						if id, ok := x.Fun.(*ast.Ident); ok && id.Name == "attach" && len(x.Args) == 2 {
+							if aid, ok := x.Args[1].(*ast.Ident); ok && info.ObjectOf(aid) == fo {
+								okUse[aid] = true
+							}
+						}
+						if se, ok := x.Fun.(*ast.SelectorExpr); ok && se.Sel.Name == "Close" {
+							if rid, ok := se.X.(*ast.Ident); ok && info.ObjectOf(rid) == fo {
+								okUse[rid] = true
+							}
+						}
+					case *ast.AssignStmt:
+						if x.Pos() == opened[fo] {
+							for _, l := range x.Lhs {
+								if lid, ok := l.(*ast.Ident); ok {
+									okUse[lid] = true
+								}
+							}
+						}
+					}
+					return true
+				})
+				ast.Inspect(fd.Body, func(n ast.Node) bool {
+					if id, ok := n.(*ast.Ident); ok && info.ObjectOf(id) == fo && !okUse[id] && bad == "" {
+						bad = fmt.Sprintf("the file %s opened at %s is used at %s other than through attach(h, %s)", fo.Name(), posOf(pkg, opened[fo]), posOf(pkg, id.Pos()), fo.Name())
+					}
+					return true
+				})
+				ob := &Obligation{Name: fname + "/secondary-input-digested:" + fo.Name(), Kind: "reads-frame", Func: fname, Pos: posOf(pkg, opened[fo]),
+					Text:  fmt.Sprintf("the secondary input file %s is read only through attach(h, %s), so every byte parsed from it is hashed into the key", fo.Name(), fo.Name()),
+					Props: []string{"C14"}}
+				if bad == "" {
+					ob.Decided = "discharged"
+					ob.Result = SolverResult{Status: "unsat", Solver: "def-use"}
+				} else {
+					ob.Decided = "failed"
+					ob.Result = SolverResult{Status: "sat", Solver: "def-use", Raw: bad}
+				}
+				obls = append(obls, ob)
+			}
+		}
 		// option variables set by plain assignment of an option's value (e.g. *seqinPath = "-")
 		// 2. derivation: assignments before TryCache whose RHS mentions option/derived vars
 		tainted := func(o types.Object) bool {
